@@ -35,12 +35,16 @@ def gridExp (A D : Nat) : Nat :=
   let k0 := A.log2 - D.log2 - 53
   if A / (D * 2 ^ k0) < 2 ^ 53 then k0 else k0 + 1
 
-/-- magnitude bits (sign bit clear) of the binary64 nearest to `N / D` (`D > 0`), ties to even; `+inf` on overflow -/
-def magBits (N D : Nat) : Nat :=
+/-- the pattern before the overflow cut: `k · 2^52 + q'` with the grid exponent `k` and the rounded quotient `q'`
+(a binary64 pattern with an unbounded exponent field) -/
+def rawBits (N D : Nat) : Nat :=
   let A := N * unitScale
   let k := gridExp A D
   let den := D * 2 ^ k
-  min (k * 2 ^ 52 + roundQ (A / den) (A % den) den) infBits
+  k * 2 ^ 52 + roundQ (A / den) (A % den) den
+
+/-- magnitude bits (sign bit clear) of the binary64 nearest to `N / D` (`D > 0`), ties to even; `+inf` on overflow -/
+def magBits (N D : Nat) : Nat := min (rawBits N D) infBits
 
 /-- The correctly rounded binary64 pattern of `(-1)^neg · mant · 10^exp10`.
 
